@@ -73,7 +73,14 @@ AlignEv == /\ IsEv("align")
                 /\ e.rem = 0
            /\ UNCHANGED <<n, mq, base, prevTotal>>
 
-Next == PSet \/ Base \/ Dur \/ AlignEv
+\* C17: time stamps in label strings are in 100 ns units: Labels::load_from_strings(rate, fperiod, ..).times() rounded to frames
+\* must be one of the exact candidates for round(t x rate / (fperiod x 1e7)) (harness: exact 128-bit arithmetic), unknown stays unknown
+UnitsEv == /\ IsEv("units")
+           /\ LET e == Rec[l] IN
+                /\ Len(e.got) = Len(e.cands)
+                /\ \A i \in 1..Len(e.got) : IF e.cands[i] = <<>> THEN e.got[i] = -1 ELSE e.got[i] \in SeqSet(e.cands[i])
+           /\ UNCHANGED <<n, mq, base, prevTotal>>
+Next == PSet \/ Base \/ Dur \/ AlignEv \/ UnitsEv
 Spec == Init /\ [][Next]_vars
 Accepted == IF TLCGet("stats").diameter - 1 = Len(Rec) THEN TRUE
             ELSE Print(<<"REJECT at", TLCGet("stats").diameter>>, FALSE)
